@@ -578,6 +578,14 @@ func r205and7(c *an.Ctx) {
 	// and is the name comparison, every other way is the constant false under the failed length test
 	present := func(v ssa.Value) bool {
 		leaves := an.PhiLeaves(v)
+		// the found result of slices.BinarySearchFunc over the list by Name (possibly handed on by a helper)
+		if len(leaves) == 1 {
+			if ex, isEx := leaves[0].Val.(*ssa.Extract); isEx && ex.Index == 1 {
+				if call, isCall := ex.Tuple.(*ssa.Call); isCall && nameBinarySearch(call) {
+					return true
+				}
+			}
+		}
 		if len(leaves) < 2 {
 			return false
 		}
@@ -641,6 +649,18 @@ func r205and7(c *an.Ctx) {
 				}
 			}
 		}
+		// slices.Delete(list, i, i+1)
+		for _, call := range an.CallsIn(fn, func(n string) bool { return strings.HasPrefix(n, "slices.Delete") }) {
+			a := call.Common().Args
+			if len(a) != 3 {
+				continue
+			}
+			if add, isAdd := a[2].(*ssa.BinOp); isAdd && add.Op == token.ADD && add.X == a[1] {
+				if one, isC := an.ConstInt(add.Y); isC && one == 1 {
+					out = append(out, call)
+				}
+			}
+		}
 		return out
 	}
 	if fn := mustFunc(c, "R20.5", "pkg/trait/parentpb", "", "traitRemove"); fn != nil {
@@ -699,7 +719,7 @@ func r205and7(c *an.Ctx) {
 				where = alloc.Pos()
 			}
 		})
-		c.Check(okAll && n >= 2, "R20.7", name+"|a trait is inserted only when it is absent", where, fmt.Sprintf("%d insertion sites", n),
+		c.Check(okAll && n >= 1, "R20.7", name+"|a trait is inserted only when it is absent", where, fmt.Sprintf("%d insertion sites", n),
 			"a new Trait element is created on a path where neither `index == len(has)` nor `has[index].Name != name` is established: adding a trait the child already has duplicates it, so the list is no longer a set")
 		// sort.Search predicate is >= (the search may live in a helper the rules have not seen)
 		okSearch := false
@@ -712,6 +732,10 @@ func r205and7(c *an.Ctx) {
 				}
 			}
 		}
+		for _, bs := range nameBinarySearchesDeep(fn) {
+			_ = bs
+			okSearch = true // BinarySearchFunc with an ascending comparison by Name returns the first position >= name
+		}
 		c.Check(okSearch, "R20.7", name+"|the insertion point is the first element >= name", fn.Pos(), "", "sort.Search's predicate is not `has[i].Name >= name`: equality at the insertion point no longer means presence")
 	}
 	// both searches span the whole (current) list and index it with the probe itself
@@ -719,6 +743,16 @@ func r205and7(c *an.Ctx) {
 		fn := c.Prog.Func("pkg/trait/parentpb", "", fname)
 		if fn == nil {
 			continue
+		}
+		for _, bs := range nameBinarySearchesDeep(fn) {
+			whole := true
+			for _, src := range an.Sources(bs.Call.Args[0]) {
+				if sl, isSlice := src.(*ssa.Slice); isSlice && sl.Low != nil {
+					whole = false
+				}
+			}
+			c.Check(whole, "R20.7", an.FuncName(fn)+"|the binary search spans the whole list", bs.Pos(), "",
+				"the binary search runs over a window of the list: names outside the window are never compared, so presence is misjudged")
 		}
 		for _, sc := range searchCallsDeep(fn) {
 			call := sc.call
@@ -1577,4 +1611,47 @@ func conversionTarget(call *ssa.Call) ssa.Value {
 		}
 	}
 	return nil
+}
+
+// nameBinarySearch: call is slices.BinarySearchFunc(list, name, cmp) with cmp comparing the element's Name with the
+// target in ascending order (strings.Compare / cmp.Compare of (element.Name, target)).
+func nameBinarySearch(call *ssa.Call) bool {
+	if !strings.HasPrefix(an.CalleeName(call), "slices.BinarySearchFunc") || len(call.Call.Args) != 3 {
+		return false
+	}
+	f := an.ClosureFn(call.Call.Args[2])
+	if f == nil {
+		if fn, isFn := call.Call.Args[2].(*ssa.Function); isFn {
+			f = fn
+		}
+	}
+	if f == nil || len(f.Params) != 2 {
+		return false
+	}
+	ok := false
+	for _, r := range an.Returns(f) {
+		cl, isCall := r.Results[0].(*ssa.Call)
+		if !isCall || !(an.CalleeName(cl) == "strings.Compare" || strings.HasPrefix(an.CalleeName(cl), "cmp.Compare")) || len(cl.Call.Args) != 2 {
+			return false
+		}
+		base, _, fld, isF := an.FieldOf(cl.Call.Args[0])
+		if !isF || fld != "Name" || base != ssa.Value(f.Params[0]) || cl.Call.Args[1] != ssa.Value(f.Params[1]) {
+			return false
+		}
+		ok = true
+	}
+	return ok
+}
+
+// nameBinarySearchesDeep: such searches in fn or in a helper of fn the rules have not seen.
+func nameBinarySearchesDeep(fn *ssa.Function) []*ssa.Call {
+	var out []*ssa.Call
+	for _, f := range append([]*ssa.Function{fn}, an.TransparentCalleesOf(fn, 1)...) {
+		an.Instrs(f, func(in ssa.Instruction) {
+			if cl, ok := in.(*ssa.Call); ok && nameBinarySearch(cl) {
+				out = append(out, cl)
+			}
+		})
+	}
+	return out
 }
